@@ -22,6 +22,7 @@ From NV Require Async.Lines Async.LinesProofs Async.WriteAll Async.WriteAllProof
 From NV Require Async.BcfFraming Async.BcfFramingProofs Trunc.Stream.
 From NV Require Async.Tab Async.TabProofs Io.TabRead Text.TextBase.
 From NV Require Async.PollSeek Async.PollSeekProofs.
+From NV Require Cram.Itf8 Cram.Ltf8 Trunc.Cram CramIdx.AsyncQuery CramIdx.AsyncQueryProofs Async.CramFraming Async.CramFramingProofs.
 From NV Require Base.LE Bgzf.Crc32 Bgzf.Frame Bgzf.Writer Async.Writer Async.WriterProofs.
 From NV Require Io.Source Io.ReadExact Io.ReadExactProofs Io.Run Io.RunProofs Async.ReadExact Async.ReadExactProofs.
 From NV Require Import Async.Framing Async.FramingProofs.
@@ -622,3 +623,399 @@ Example c16_async_sam_lazy_example :
   = [NV.Text.TextBase.Ok 23; NV.Text.TextBase.Err NV.Text.TextBase.InvalidData].
 Proof. vm_compute. reflexivity. Qed.
 End TB.
+
+(* ============================================================================================
+   The async CRAM container framing (noodles-cram async/io/reader/num/{itf8,ltf8}.rs with their i32 /
+   i64 bit arithmetic and byte-by-byte awaited reads, reader/container/header.rs, reader/container.rs
+   and the CrcReader) against the sync framing (grouped reads, masks on a big-endian integer:
+   NV.Cram.Itf8 / NV.Cram.Ltf8; C19's read program of the sync reader).  Model: NV.Async.CramFraming.
+   ============================================================================================ *)
+Module CF.
+Import NV.Io.Source NV.Io.ReadExact NV.Io.Run NV.Async.ReadExact.
+Import NV.Cram.Itf8 NV.Cram.Ltf8 NV.Trunc.Stream NV.Trunc.Cram NV.CramIdx.AsyncQuery NV.CramIdx.AsyncQueryProofs.
+Import NV.Async.CramFraming NV.Async.CramFramingProofs.
+
+(* async read_itf8: whichever arm its bit tests select, the i32 its shifts and ors compute from
+   the bytes it read is the value the sync read_itf8 returns on those bytes (and on any longer
+   input that starts with them) *)
+Theorem c16_async_itf8_value_is_sync :
+  forall b0 t ext, (b0 < 256)%N -> bytes t -> length t = a_itf8_class b0 ->
+    read_itf8 ((b0 :: t) ++ ext) = Some (i32_of_u32 (a_itf8_u32 b0 t), ext).
+Proof. exact a_itf8_is_read_itf8. Qed.
+Print Assumptions c16_async_itf8_value_is_sync.
+
+Theorem c16_async_ltf8_value_is_sync :
+  forall b0 t ext, (b0 < 256)%N -> bytes t -> length t = a_ltf8_class b0 ->
+    read_ltf8 ((b0 :: t) ++ ext) = Some (i64_of_u64 (a_ltf8_u64 b0 t), ext).
+Proof. exact a_ltf8_is_read_ltf8. Qed.
+Print Assumptions c16_async_ltf8_value_is_sync.
+
+(* one async read_container call (header fields, CRC check, EOF-container test, body through
+   take + read_to_end) over ANY poll script and any read_to_end request sizes: the result -- header,
+   body, EOF flag or the error kind -- and the data left behind are those of the sync reader's
+   program on the bytes *)
+Theorem c16_async_cram_read_container_closed :
+  forall crc polls req data, bytes data ->
+    exists s',
+      run_rd aread req a_fuel (ap_read_container crc) (mkASource data polls)
+      = (rr_of (run_pure (p_read_container crc false) data), s')
+      /\ (forall a r, run_pure (p_read_container crc false) data = POk a r -> a_data s' = r).
+Proof. exact async_cram_read_container_closed. Qed.
+Print Assumptions c16_async_cram_read_container_closed.
+
+(* the container stream (read_container until the EOF container or the first error): async over
+   every poll script = sync over every delivery script (chunking, Interrupted results): the same
+   containers -- every header field and the body bytes -- and the same ending *)
+Theorem c16_async_cram_containers_equal_sync :
+  forall crc polls req req' (t : source) fuel, bytes (s_data t) ->
+    fst (containers_rd aread req a_fuel (ap_read_container crc) fuel (mkASource (s_data t) polls))
+    = fst (containers_rd src_read req' src_fuel (p_read_container crc false) fuel t).
+Proof. exact async_cram_containers_equal_sync. Qed.
+Print Assumptions c16_async_cram_containers_equal_sync.
+
+(* non-vacuity: the 5-byte ITF8 form of -1 with a dirty high nibble, a 9-byte LTF8, and the EOF
+   container read with 1-byte transfers *)
+Example c16_async_cram_framing_example :
+  i32_of_u32 (a_itf8_u32 255 [255; 255; 255; 175]%N) = Zneg 1%positive
+  /\ i64_of_u64 (a_ltf8_u64 255 [255; 255; 255; 255; 255; 255; 255; 254]%N) = Zneg 2%positive
+  /\ async_cram_case [0; 2; 0; 2; 2; 2]%nat 7%nat
+       [15; 0; 0; 0; 255; 255; 255; 255; 15; 224; 69; 79; 70; 0; 0; 0; 0; 1; 0; 5; 189; 217; 79; 0; 1; 0; 6; 6;
+        1; 0; 1; 0; 1; 0; 238; 99; 1; 75]%N = ([], 0%N).
+Proof. vm_compute. repeat split; reflexivity. Qed.
+End CF.
+
+(* ---- C16: the async index writers hand the sink exactly the bytes of the sync index writers ----
+   Append to coq/props/C16.v (the Require line is legal at top level between modules).
+   NV.Async.IndexWrite models each async index writer of noodles (gzi, BAI, CSI, tabix) as the list
+   of buffers it passes to tokio's write_all / write_u32_le / write_i32_le / write_u64_le / write_u8,
+   in order, and the way it ends (Ok / InvalidInput / panic), over C17's index values; C17's
+   NV.Index.Layout / NV.Index.CsiLayout give the SYNC writers' bytes (w_gzi, w_bai, w_csi_bytes,
+   w_tbi_bytes) and results (csi_status, tbi_status).  For CSI / tabix the sink of these calls is
+   the async BGZF writer (module WR): the bytes are the uncompressed payload handed to it. *)
+From NV Require Index.Layout Index.CsiLayout Async.IndexWrite Async.IndexWriteProofs.
+
+Module IW.
+Import NV.Index.Layout NV.Index.CsiLayout.
+Import NV.Async.WriteAll NV.Async.WriteAllProofs NV.Async.IndexWrite NV.Async.IndexWriteProofs.
+
+(* gzi: the writer cannot fail; for every partial-write / Pending script of the sink the write
+   loops succeed and leave exactly C17's gzi layout in the sink *)
+Theorem c16_async_gzi_writer_sink_equals_sync_bytes :
+  forall idx script, exists p lg,
+    write_calls (mkASink [] script []) (aw_calls (async_gzi idx))
+      = (NV.Async.WriteAll.WOk, mkASink (w_gzi idx) p lg)
+    /\ aw_end (async_gzi idx) = SOk.
+Proof. exact async_gzi_writer_sink_equals_sync_bytes. Qed.
+Print Assumptions c16_async_gzi_writer_sink_equals_sync_bytes.
+
+(* BAI: for every script the write loops never fail; the sink holds exactly w_bai i when the
+   writer ends Ok, and a prefix of it (the calls made before the failing conversion) otherwise;
+   the writer ends like the sync one (InvalidInput at the first bin id that is not a u32) for
+   every index whose element counts fit their u32 count fields *)
+Theorem c16_async_bai_writer_sink_equals_sync_bytes :
+  forall i script, exists sink p lg,
+    write_calls (mkASink [] script []) (aw_calls (async_bai i))
+      = (NV.Async.WriteAll.WOk, mkASink sink p lg)
+    /\ (aw_end (async_bai i) = SOk -> sink = w_bai i)
+    /\ (exists rest, w_bai i = sink ++ rest)
+    /\ (bai_fits i = true -> aw_end (async_bai i) = bai_status i).
+Proof. exact async_bai_writer_sink_equals_sync_bytes. Qed.
+Print Assumptions c16_async_bai_writer_sink_equals_sync_bytes.
+
+(* CSI (the repaired writer: n_ref is written, the per-bin loffset is the ancestor-chain minimum
+   stored_loffset): the same, against C17's w_csi_bytes / csi_status (header errors and panics,
+   bin ids that are not u32, Bin::metadata_id(depth > 10) panicking) *)
+Theorem c16_async_csi_writer_sink_equals_sync_bytes :
+  forall i script, exists sink p lg,
+    write_calls (mkASink [] script []) (aw_calls (async_csi i))
+      = (NV.Async.WriteAll.WOk, mkASink sink p lg)
+    /\ (aw_end (async_csi i) = SOk -> sink = w_csi_bytes i)
+    /\ (exists rest, w_csi_bytes i = sink ++ rest)
+    /\ (csi_fits i = true -> aw_end (async_csi i) = csi_status i).
+Proof. exact async_csi_writer_sink_equals_sync_bytes. Qed.
+Print Assumptions c16_async_csi_writer_sink_equals_sync_bytes.
+
+(* tabix (the async writer has its own field-by-field copy of the header writer) *)
+Theorem c16_async_tbi_writer_sink_equals_sync_bytes :
+  forall i script, exists sink p lg,
+    write_calls (mkASink [] script []) (aw_calls (async_tbi i))
+      = (NV.Async.WriteAll.WOk, mkASink sink p lg)
+    /\ (aw_end (async_tbi i) = SOk -> sink = w_tbi_bytes i)
+    /\ (exists rest, w_tbi_bytes i = sink ++ rest)
+    /\ (tbi_fits i = true -> aw_end (async_tbi i) = tbi_status i).
+Proof. exact async_tbi_writer_sink_equals_sync_bytes. Qed.
+Print Assumptions c16_async_tbi_writer_sink_equals_sync_bytes.
+
+(* in C17's own terms: whenever C17's sync writer result is `WOk bs`, the sink ends up holding bs *)
+Theorem c16_async_csi_writer_sink_holds_c17_result :
+  forall i script bs, csi_fits i = true -> w_csi i = NV.Index.CsiLayout.WOk bs ->
+    exists p lg, write_calls (mkASink [] script []) (aw_calls (async_csi i))
+                 = (NV.Async.WriteAll.WOk, mkASink bs p lg).
+Proof. exact async_csi_writer_ok_sink. Qed.
+Print Assumptions c16_async_csi_writer_sink_holds_c17_result.
+
+Theorem c16_async_tbi_writer_sink_holds_c17_result :
+  forall i script bs, tbi_fits i = true -> w_tbi i = NV.Index.CsiLayout.WOk bs ->
+    exists p lg, write_calls (mkASink [] script []) (aw_calls (async_tbi i))
+                 = (NV.Async.WriteAll.WOk, mkASink bs p lg).
+Proof. exact async_tbi_writer_ok_sink. Qed.
+Print Assumptions c16_async_tbi_writer_sink_holds_c17_result.
+
+(* non-vacuity: a BAI index with a bin, the metadata pseudo-bin, an interval and n_no_coor: 16
+   write calls, Ok, C17's layout *)
+Example c16_index_writer_example :
+  let i := mkbai [mkbref [(4681, [(1, 2)])]%N (Some (mkmeta 3 4 5 6)) [7%N]] (Some 9%N) in
+  bai_fits i = true /\ aw_end (async_bai i) = SOk
+  /\ aw_lens (async_bai i) = [4; 4; 4; 4; 4; 8; 8; 4; 4; 8; 8; 8; 8; 4; 8; 8]%nat
+  /\ aw_bytes (async_bai i) = w_bai i.
+Proof. vm_compute. repeat split; reflexivity. Qed.
+
+(* ... and the failing side: the second bin id is not a u32 -- InvalidInput like the sync writer,
+   after magic, n_ref, n_bin and the whole first bin were handed over *)
+Example c16_index_writer_error_example :
+  let i := mkbai [mkbref [(1, []); (4294967296, [])]%N None []] None in
+  bai_fits i = true /\ aw_end (async_bai i) = SErr /\ bai_status i = SErr
+  /\ aw_lens (async_bai i) = [4; 4; 4; 4; 4]%nat
+  /\ w_bai i = aw_bytes (async_bai i) ++ [0; 0; 0; 0; 0; 0; 0; 0; 0; 0; 0; 0]%N.
+Proof. vm_compute. repeat split; reflexivity. Qed.
+
+(* CSI: a header-less index of depth 11 with a metadata pseudo-bin panics in both writers, after
+   the bins of that reference sequence *)
+Example c16_csi_writer_panic_example :
+  let i := mkcsi 14%N 11%nat None [mkcref [(0, [(1, 2)])]%N [(0, 5)]%N (Some (mkmeta 3 4 5 6))] None in
+  csi_fits i = true /\ aw_end (async_csi i) = SPanic /\ csi_status i = SPanic.
+Proof. vm_compute. repeat split; reflexivity. Qed.
+End IW.
+
+From NV Require Index.Layout Async.IndexRead Async.IndexReadProofs.
+
+(* ============================================================================================
+   The binary index readers (GZI, BAI), sync and async, as read programs (NV.Async.IndexRead):
+   every read program over every poll script = over every sync delivery script = on the bytes;
+   the real readers written field by field and tied to C17's whole-buffer parsers; the two
+   places where the async reader does NOT behave like the sync one are stated exactly and refuted
+   as equalities (GZI: Vec::with_capacity(count) panics for count >= 2^59; BAI: the end of the data
+   inside a bin / a chunk count >= 2^31 is InvalidData in the sync reader, UnexpectedEof in the
+   async one).
+   ============================================================================================ *)
+Module IX.
+Import NV.Io.Source NV.Io.ReadExact NV.Io.ReadExactProofs NV.Io.Run NV.Io.RunProofs.
+Import NV.Async.ReadExact NV.Async.ReadExactProofs.
+Import NV.Trunc.Stream NV.Trunc.Cram NV.CramIdx.AsyncQuery NV.CramIdx.AsyncQueryProofs.
+Import NV.Async.IndexRead NV.Async.IndexReadProofs.
+
+(* ANY read program (read_exact / take + read_to_end steps with arbitrary continuations), ANY poll
+   script, ANY read_to_end request sizes on either side, ANY sync delivery script (incl.
+   Interrupted): both runs return the value / error kind the program has on the bytes, and leave
+   the same bytes unread *)
+Theorem c16_async_prog_equals_sync :
+  forall (A : Type) (p : prog A) polls req req' script d,
+  exists a' t',
+    run_rd aread req a_fuel p (mkASource d polls) = (rr_of (run_pure p d), a')
+    /\ run_rd src_read req' src_fuel p (mkSource d script) = (rr_of (run_pure p d), t')
+    /\ (forall v rest, run_pure p d = POk v rest -> a_data a' = rest /\ s_data t' = rest).
+Proof. exact async_prog_equals_sync. Qed.
+Print Assumptions c16_async_prog_equals_sync.
+
+(* the loops over a count of the file are iterated on the binary count in the model; that is
+   `for _ in 0..n` *)
+Theorem c16_index_loop_is_the_unary_loop :
+  forall (St : Type) (body : St -> prog St) n s,
+    peq (ix_iter body n s) (ix_iter_nat body (N.to_nat n) s).
+Proof. exact ix_iter_nat_eq. Qed.
+Print Assumptions c16_index_loop_is_the_unary_loop.
+
+(* a read_exact whose UnexpectedEof is caught by the caller, written as take + length test in the
+   model, is a plain read_exact when the error is handed on *)
+Theorem c16_index_caught_read_exact :
+  forall (A : Type) n (k : N -> prog A), peq (ix_le_as UnexpectedEof n k) (ix_le n k).
+Proof. exact ix_le_as_eof. Qed.
+Print Assumptions c16_index_caught_read_exact.
+
+(* GZI.  The sync reader program against C17's whole-buffer parser: it returns an index exactly
+   when read_gzi accepts (nothing left unread), the same one, and never panics *)
+Theorem c16_gzi_program_is_read_gzi :
+  forall d,
+    match run_pure (p_gzi false) d with
+    | POk (GIndex l) r => NV.Index.Layout.read_gzi d = Some l /\ r = []
+    | POk GPanic _ => False
+    | PErr _ => NV.Index.Layout.read_gzi d = None
+    end.
+Proof. exact gzi_link. Qed.
+Print Assumptions c16_gzi_program_is_read_gzi.
+
+(* unless the count field makes Vec::with_capacity overflow (count >= 2^59), the async GZI reader
+   under every poll script returns what the sync reader returns under every delivery script: the
+   same index or the same error kind *)
+Theorem c16_async_gzi_reader_equals_sync :
+  forall polls req req' script d,
+    ~ gzi_count_overflows d ->
+    fst (run_rd aread req a_fuel (p_gzi true) (mkASource d polls))
+    = fst (run_rd src_read req' src_fuel (p_gzi false) (mkSource d script)).
+Proof. exact async_gzi_reader_equals_sync. Qed.
+Print Assumptions c16_async_gzi_reader_equals_sync.
+
+(* ... and then it returns an index exactly when C17's read_gzi does, the same one *)
+Theorem c16_async_gzi_reader_is_read_gzi :
+  forall polls req d l,
+    ~ gzi_count_overflows d ->
+    (fst (run_rd aread req a_fuel (p_gzi true) (mkASource d polls)) = RVal (GIndex l)
+     <-> NV.Index.Layout.read_gzi d = Some l).
+Proof. exact async_gzi_reader_link. Qed.
+Print Assumptions c16_async_gzi_reader_is_read_gzi.
+
+(* the full statement is false: 8 bytes holding the count 2^59 make the async reader panic under
+   every poll script while the sync reader reports UnexpectedEof
+   (finding async-gzi-reader-count-capacity-overflow-panic) *)
+Theorem c16_async_gzi_reader_equals_sync_refuted :
+  exists d, forall polls req req' script,
+    fst (run_rd aread req a_fuel (p_gzi true) (mkASource d polls)) = RVal GPanic
+    /\ fst (run_rd src_read req' src_fuel (p_gzi false) (mkSource d script)) = RErr UnexpectedEof.
+Proof. exact async_gzi_reader_equals_sync_refuted. Qed.
+Print Assumptions c16_async_gzi_reader_equals_sync_refuted.
+
+(* BAI.  The sync reader program returns an index exactly when C17's read_bai accepts, the same *)
+Theorem c16_bai_program_is_read_bai :
+  forall d,
+    NV.Index.Layout.read_bai d
+    = match run_pure (p_bai true) d with POk i _ => Some i | PErr _ => None end.
+Proof. exact bai_link. Qed.
+Print Assumptions c16_bai_program_is_read_bai.
+
+(* on every file shorter than 2^35 bytes, under every poll script and every delivery script, the
+   two BAI readers return the same index or the same error kind -- except that the sync reader
+   may say InvalidData where the async reader says UnexpectedEof, and nothing else *)
+Theorem c16_async_bai_reader_equals_sync_partial :
+  forall polls req req' script d,
+    (N.of_nat (length d) < bai_bound)%N ->
+    rr_rel (fst (run_rd src_read req' src_fuel (p_bai true) (mkSource d script)))
+           (fst (run_rd aread req a_fuel (p_bai false) (mkASource d polls))).
+Proof. exact async_bai_reader_equals_sync_partial. Qed.
+Print Assumptions c16_async_bai_reader_equals_sync_partial.
+
+(* outside that class the results are equal *)
+Theorem c16_async_bai_reader_equals_sync :
+  forall polls req req' script d,
+    (N.of_nat (length d) < bai_bound)%N -> ~ bai_kind_class d ->
+    fst (run_rd aread req a_fuel (p_bai false) (mkASource d polls))
+    = fst (run_rd src_read req' src_fuel (p_bai true) (mkSource d script)).
+Proof. exact async_bai_reader_equals_sync. Qed.
+Print Assumptions c16_async_bai_reader_equals_sync.
+
+(* the async reader returns an index exactly when C17's read_bai accepts the file, the same one *)
+Theorem c16_async_bai_reader_is_read_bai :
+  forall polls req d i,
+    (N.of_nat (length d) < bai_bound)%N ->
+    (fst (run_rd aread req a_fuel (p_bai false) (mkASource d polls)) = RVal i
+     <-> NV.Index.Layout.read_bai d = Some i).
+Proof. exact async_bai_reader_link. Qed.
+Print Assumptions c16_async_bai_reader_is_read_bai.
+
+(* the full statement is false: a file cut inside the chunk count of a bin
+   (finding async-bai-reader-error-kind-differs) *)
+Theorem c16_async_bai_reader_equals_sync_refuted :
+  exists d, forall polls req req' script,
+    fst (run_rd aread req a_fuel (p_bai false) (mkASource d polls)) = RErr UnexpectedEof
+    /\ fst (run_rd src_read req' src_fuel (p_bai true) (mkSource d script)) = RErr InvalidData.
+Proof. exact async_bai_reader_equals_sync_refuted. Qed.
+Print Assumptions c16_async_bai_reader_equals_sync_refuted.
+
+(* non-vacuity: one reference with bin 5 (one chunk), the metadata pseudo-bin, two intervals and
+   n_no_coor = 9; 1-byte transfers with a Pending before each for the first polls, then 3-byte ones *)
+Example c16_index_reader_example :
+  let le4 := NV.Base.LE.le32 in
+  let le8 := NV.Base.LE.le64 in
+  let data := ([66; 65; 73; 1] ++ le4 1 ++ le4 2
+               ++ le4 5 ++ le4 1 ++ le8 100 ++ le8 200
+               ++ le4 37450 ++ le4 2 ++ le8 100 ++ le8 200 ++ le8 7 ++ le8 0
+               ++ le4 2 ++ le8 100 ++ le8 150 ++ le8 9)%N in
+  let idx := NV.Index.Layout.mkbai
+               [NV.Index.Layout.mkbref [(5, [(100, 200)])] (Some (NV.Index.Layout.mkmeta 100 200 7 0)) [100; 150]]
+               (Some 9)%N in
+  let polls := [PPending; PReady 1; PPending; PReady 1; PPending; PReady 1; PReady 3; PReady 3; PPending; PReady 3] in
+  async_bai_run [0; 2; 0; 2; 4; 4; 0; 4]%nat 8%nat data = RVal idx
+  /\ async_bai_case [0; 2; 0; 2; 4; 4; 0; 4]%nat 8%nat data = IxVal (bai_flatten idx)
+  /\ fst (run_rd aread (fun _ => 5%nat) a_fuel (p_bai false) (mkASource data polls)) = RVal idx
+  /\ sync_bai_run data = RVal idx
+  /\ NV.Index.Layout.read_bai data = Some idx
+  /\ NV.Index.Layout.w_bai idx = data
+  /\ (N.of_nat (length data) < bai_bound)%N /\ ~ bai_kind_class data
+  /\ async_gzi_run [0; 2; 3]%nat 8%nat (le8 1 ++ le8 4668 ++ le8 21294)%N = RVal (GIndex [(4668, 21294)%N])
+  /\ sync_gzi_case (le8 1 ++ le8 4668 ++ le8 21294)%N = IxVal [(4668, 21294)%N]
+  /\ ~ gzi_count_overflows (le8 1 ++ le8 4668 ++ le8 21294)%N.
+Proof.
+  vm_compute. repeat split; try reflexivity.
+  - intros [H _]. discriminate H.
+  - intros [_ H]. apply H. reflexivity.
+Qed.
+End IX.
+
+(* ============================================================================================
+   The async FASTA reader as a record stream (read_definition + read_sequence alternately over
+   tokio's BufReader): C12 has no closed form for where read_sequence leaves the reader; seq_rest is
+   it, and with it the whole stream has a closed form on the flat data (NV.Async.FastaRecords).
+   ============================================================================================ *)
+From NV Require Async.FastaRecords Async.FastaRecordsProofs Async.FastaRecordsSync Async.FastaRecordsSyncProofs Fasta.Reader.
+Module FR.
+Import NV.Io.Source NV.Io.BufReader NV.Io.BufReaderProofs NV.Io.FastaScan.
+Import NV.Async.ReadExact NV.Async.ReadExactProofs NV.Async.Lines NV.Async.FastaRecords NV.Async.FastaRecordsProofs.
+Import NV.Async.FastaRecordsSync NV.Async.FastaRecordsSyncProofs.
+
+(* one async read_sequence call, for every capacity >= 1 and every poll script: it returns the
+   sync sequence (C12's seq_out) AND leaves the reader exactly at seq_rest: the first '>' that
+   stands at the beginning of a line (CRs before it consumed), or the end of the data *)
+Theorem c16_async_fasta_sequence_leaves_reader_at_next_definition :
+  forall cap codes data, 1 <= cap ->
+    exists n st', a_read_sequence aread cap ab_fuel true (ab_start data codes) = (SOk, seq_out BOL data, n, st')
+                  /\ rep_buf rep_a st' (seq_rest BOL data) 0.
+Proof. exact async_fasta_sequence_rest. Qed.
+Print Assumptions c16_async_fasta_sequence_leaves_reader_at_next_definition.
+
+(* the whole record stream (names, descriptions, sequences, the final InvalidData or clean end)
+   is the closed form on the flat data: independent of the BufReader capacity and the poll script *)
+Theorem c16_async_fasta_records_closed :
+  forall cap codes data, 1 <= cap ->
+    fst (async_fasta_records_case cap codes data) = closed_fasta_records_case data.
+Proof. exact async_fasta_records_closed. Qed.
+Print Assumptions c16_async_fasta_records_closed.
+
+(* the closed form never runs out of fuel *)
+Theorem c16_fasta_records_closed_total :
+  forall data, snd (closed_fasta_records_case data) <> FNoFuel.
+Proof. intros data. apply fasta_records_closed_fuel. apply Nat.lt_succ_diag_r. Qed.
+Print Assumptions c16_fasta_records_closed_total.
+
+(* the SYNC record stream -- Records::next: C12's read_line + parse_definition, then C12's model of
+   the sync sequence::Reader read to its end (NV.Io.FastaScan.read_sequence) -- under EVERY delivery
+   script (chunking, Interrupted) and capacity: the same closed form; the sync read_sequence also
+   leaves the reader at seq_rest (read_sequence_rest) *)
+Theorem c16_sync_fasta_records_closed :
+  forall cap sc data, 1 <= cap ->
+    sync_fasta_records_run cap (mkSource data sc) = closed_fasta_records_case data.
+Proof. exact sync_fasta_records_closed. Qed.
+Print Assumptions c16_sync_fasta_records_closed.
+
+(* async = sync: the same names, descriptions, sequences and ending *)
+Theorem c16_async_fasta_records_equal_sync :
+  forall cap cap' codes sc data, 1 <= cap -> 1 <= cap' ->
+    fst (async_fasta_records_case cap codes data) = sync_fasta_records_run cap' (mkSource data sc).
+Proof. exact async_fasta_records_equal_sync. Qed.
+Print Assumptions c16_async_fasta_records_equal_sync.
+
+(* NOT proved (compared on every generated case by kind afar): the closed form is also what C11's
+   LINE-driven model of the sync reader returns (NV.Fasta.Reader.read_file) *)
+Definition c16_fasta_records_closed_is_c11_read_file_full_statement : Prop :=
+  forall data,
+    fst (closed_fasta_records_case data) = fst (NV.Fasta.Reader.read_file data)
+    /\ (snd (closed_fasta_records_case data) = FInvalidData
+        <-> snd (NV.Fasta.Reader.read_file data) = Some NV.Fasta.Reader.RInvalidData).
+
+(* non-vacuity: two records, CR LF line ends, a CR before the second '>', 1-byte transfers *)
+Example c16_async_fasta_records_example :
+  let data := [62; 97; 32; 120; 13; 10; 65; 67; 13; 10; 13; 62; 98; 10; 71]%N in
+  fst (async_fasta_records_case 2 [0; 2; 0; 2; 2; 2; 2] data)
+  = ([NV.Fasta.Reader.mkfrec [97]%N (Some [120]%N) [65; 67]%N; NV.Fasta.Reader.mkfrec [98]%N None [71]%N], FEnd)
+  /\ fst (NV.Fasta.Reader.read_file data)
+     = [NV.Fasta.Reader.mkfrec [97]%N (Some [120]%N) [65; 67]%N; NV.Fasta.Reader.mkfrec [98]%N None [71]%N].
+Proof. vm_compute. split; reflexivity. Qed.
+End FR.
